@@ -407,6 +407,28 @@ neu('N-cacg-normalize-inline', ALLP, [(D + 'complex_angular_central_gaussian.py'
      "    observation = _unit_norm(\n        observation,\n        axis=-1,\n        eps=np.finfo(observation.dtype).tiny,\n        eps_style='where',\n    )\n",
      "    observation = observation / np.maximum(\n        np.linalg.norm(observation, axis=-1, keepdims=True),\n        np.finfo(observation.dtype).tiny,\n    )\n", False)])
 
+
+# ---- second batch of neutral refactors (behaviour preserving)
+neu('N2-psd-normalise-out-of-place', ALLP, [('pb_bss/extraction/beamformer.py', "            mask /= np.maximum(\n                np.sum(mask, axis=time_dim, keepdims=True),\n                1e-10,\n            )", "            mask = mask / np.maximum(\n                np.sum(mask, axis=time_dim, keepdims=True),\n                1e-10,\n            )", False)])
+neu('N2-psd-frames-out-of-place', ALLP, [('pb_bss/extraction/beamformer.py', "        psd /= observation.shape[-1]", "        psd = psd / observation.shape[-1]", False)])
+neu('N2-cacg-floor-with-clip', ALLP, [(D + 'complex_angular_central_gaussian.py', "            eigenvals = np.maximum(\n                eigenvals,\n                eigenvalue_floor,\n            )\n        else:", "            eigenvals = np.clip(eigenvals, eigenvalue_floor, None)\n        else:", False)])
+neu('N2-vmf-mean-two-steps', ALLP, [(D + 'von_mises_fisher.py', "        mean = r / np.maximum(norm, np.finfo(y.dtype).tiny)[..., None]", "        safe_norm = np.maximum(norm, np.finfo(y.dtype).tiny)\n        mean = r / safe_norm[..., None]", False)])
+neu('N2-watson-fit-out-of-place-division', ALLP, [(D + 'complex_watson.py', "        covariance /= denominator\n        mode, eigenvalues = get_pca(covariance)", "        covariance = covariance / denominator\n        mode, eigenvalues = get_pca(covariance)", False)])
+neu('N2-posterior-exp-out-of-place', ALLP, [(D + 'mixture_model_utils.py', "    np.exp(affiliation, out=affiliation)\n\n    # Weight multiplied", "    affiliation = np.exp(affiliation)\n\n    # Weight multiplied", False)])
+neu('N2-posterior-max-keyword', ALLP, [(D + 'mixture_model_utils.py', "    affiliation = log_pdf - np.amax(log_pdf, axis=-2, keepdims=True)", "    shift = np.max(log_pdf, axis=-2, keepdims=True)\n    affiliation = log_pdf - shift", False)])
+neu('N2-mstep-masked-affiliation-inline', ALLP, [(D + 'cwmm.py', "        if saliency is None:\n            masked_affiliation = affiliation\n        else:\n            masked_affiliation = affiliation * saliency[..., None, :]\n\n        complex_watson = self.complex_watson_trainer._fit(\n            y=y[..., None, :, :],\n            saliency=masked_affiliation,\n        )",
+                                               "        complex_watson = self.complex_watson_trainer._fit(\n            y=y[..., None, :, :],\n            saliency=affiliation if saliency is None else affiliation * saliency[..., None, :],\n        )", False)])
+neu('N2-souden-named-temporaries', ALLP, [('pb_bss/extraction/beamformer.py', "    phi = stable_solve(noise_psd_matrix, target_psd_matrix)\n    lambda_ = np.trace(phi, axis1=-1, axis2=-2)[..., None, None]\n    if eps is None:", "    noise, target = noise_psd_matrix, target_psd_matrix\n    phi = stable_solve(noise, target)\n    lambda_ = np.trace(phi, axis1=-2, axis2=-1)[..., None, None]\n    if eps is None:", False)])
+neu('N2-ban-divide-equivalent', ALLP, [('pb_bss/extraction/beamformer.py', "    return vector * np.abs(normalization[..., np.newaxis])", "    gain = np.abs(normalization[..., None])\n    return vector * gain", False)])
+neu('N2-mask-sum-keyword-axis', ALLP, [('pb_bss/extraction/mask_module.py', "    observed_signal = np.sum(signal, axis=source_axis, keepdims=True)\n    return signal / observed_signal", "    mixture = signal.sum(axis=source_axis, keepdims=True)\n    return signal / mixture", False)])
+neu('N2-sxr-sdr-last', ALLP, [('pb_bss/evaluation/sxr_module.py', "    SDR = _sxr(S, I + N)\n    SIR = _sxr(S, I)\n    SNR = _sxr(S, N)\n\n    if average_sources:\n        SDR = np.mean(SDR, axis=0)", "    SIR = _sxr(S, I)\n    SNR = _sxr(S, N)\n    SDR = _sxr(S, I + N)\n\n    if average_sources:\n        SDR = np.mean(SDR, axis=0)", False)])
+neu('N2-dhtv-copy-via-array', ALLP, [('pb_bss/permutation_alignment.py', "            features = mask.copy()", "            features = np.array(mask, copy=True)", False)])
+neu('N2-greedy-loop-variable', ALLP, [('pb_bss/permutation_alignment.py', "            for _ in range(K):\n                # argmax does not support", "            for pick in range(K):\n                # argmax does not support", False)])
+neu('N2-gaussian-whiten-swap-operands', ALLP, [(D + 'gaussian.py', "            '...Dd,...nD->...nd',\n            self.precision_cholesky,\n            difference\n        )", "            '...nD,...Dd->...nd',\n            difference,\n            self.precision_cholesky\n        )", False)])
+neu('N2-weights-mean-positional', ALLP, [(D + 'mixture_model_utils.py', "        weight = np.mean(\n            affiliation, axis=weight_constant_axis, keepdims=True\n        )\n    else:\n        masked_affiliation = affiliation * saliency[..., None, :]\n        weight = _unit_norm(", "        weight = np.mean(affiliation, weight_constant_axis, keepdims=True)\n    else:\n        masked_affiliation = affiliation * saliency[..., None, :]\n        weight = _unit_norm(", False)])
+neu('N2-fit-predict-keyword-order', ALLP, [(D + 'cwmm.py', "            iterations=iterations,\n            saliency=saliency,\n            weight_constant_axis=weight_constant_axis,\n            affiliation_eps=affiliation_eps,\n            inline_permutation_aligner=inline_permutation_aligner,\n        )\n        return model.predict(y)", "            saliency=saliency,\n            iterations=iterations,\n            affiliation_eps=affiliation_eps,\n            weight_constant_axis=weight_constant_axis,\n            inline_permutation_aligner=inline_permutation_aligner,\n        )\n        return model.predict(y)", False)])
+neu('N2-si-sdr-temporaries', ALLP, [('pb_bss/evaluation/module_si_sdr.py', "    ratio = np.sum(projection ** 2, axis=-1) / np.sum(noise ** 2, axis=-1)\n    return 10 * np.log10(ratio)", "    target_energy = np.sum(projection ** 2, axis=-1)\n    residual_energy = np.sum(noise ** 2, axis=-1)\n    return 10 * np.log10(target_energy / residual_energy)", False)])
+
 out = pathlib.Path(__file__).resolve().parent.parent / 'pbv' / 'selftest_corpus.json'
 out.write_text(json.dumps(C, indent=1))
 print(len(C), 'variants ->', out)
